@@ -50,15 +50,33 @@ class C14(core.Prop):
         random.Random(case.get('perm_seed', 0) + 1).shuffle(p)
         return [(case['examples'], 'list'), (p, 'list'), (case['examples'], 'dict')]
 
+    def _recorded(self, case):
+        key = json.dumps(case, sort_keys=True)
+        if getattr(self, '_rk', None) != key:
+            self._rk = key
+            self._rv = [rx.run_extract_recorded(ex, case['opts'], case['size'], case['seed'], form)
+                        for ex, form in self._variants(case)]
+        return self._rv
+
     def model_ops(self, case):
         if case.get('kind') == 'history':
             return []
-        if not rx.nosampling(case['examples'], case['opts'], case['size']):
+        if not rx.modelled(case['examples'], case['opts']):
             return []
-        return [rx.model_extract_op(ex, case['opts'], form) for ex, form in self._variants(case)]
+        if rx.nosampling(case['examples'], case['opts'], case['size']):
+            return [rx.model_extract_op(ex, case['opts'], form) for ex, form in self._variants(case)]
+        ops = []
+        for (ex, form), (res, exc, picks) in zip(self._variants(case), self._recorded(case)):
+            if exc is not None or any(not isinstance(x, list) for p in picks for x in p):
+                return []
+            ops.append(rx.model_sampled_op(ex, case['opts'], case['size'], picks, form))
+        self.count('sampled_traces')
+        return ops
 
     def impl_outputs(self, case):
-        return [rx.impl_rex(ex, case['opts'], case['size'], case['seed'], form) for ex, form in self._variants(case)]
+        if rx.nosampling(case['examples'], case['opts'], case['size']):
+            return [rx.impl_rex(ex, case['opts'], case['size'], case['seed'], form) for ex, form in self._variants(case)]
+        return [{'exc': type(exc).__name__} if exc is not None else {'rex': list(res)} for res, exc, _ in self._recorded(case)]
 
     def canon_model(self, case, outs):
         return rx.canon_rex(outs)
